@@ -347,6 +347,9 @@ def run(chk):
     ijobs = [(si, a) for si, (mod, fname, args, outunit, data) in enumerate(SPECS) if data is not None and fname not in EQUIV_ELSEWHERE
              for a in args if args[a] in ALT_UNIT and (a in data or chk.tier == 'thorough')]
     run_jobs(chk, job_int, ijobs)
+    from . import shimval
+    shimval.validate(chk, 'kinematics-dtypes', 60 if chk.tier == 'quick' else 300)
+    shimval.validate(chk, 'inelastic-dtypes', 30 if chk.tier == 'quick' else 150)
     chk.bounds = {'units': 'one symbolic positive scale factor per argument (covers every unit of the right dimension, not only the ns..s / mm..km grid); deg vs rad for angles',
                   'dtypes': 'float64/float32/int64 grid for the kernels that select a precision themselves', 'shapes': 'scalar operands'}
     chk.stubs = ['scipp -> symsc (unit algebra with symbolic scale monomials, to_unit, dtype promotion rules measured on scipp 25.4)']
